@@ -24,6 +24,7 @@ mod c12;
 pub mod units;
 mod c13;
 pub mod c17;
+mod c20;
 
 pub struct Opts {
     pub tier_thorough: bool,
@@ -75,6 +76,7 @@ fn main() {
         "c12" => (c12::gen, c12::exec),
         "c13" => (c13::gen, c13::exec),
         "c17" => (c17::gen, c17::exec),
+        "c20" => (c20::gen, c20::exec),
         _ => { eprintln!("unknown property {}", prop); std::process::exit(2); }
     };
     if let Some(path) = &o.replay {
